@@ -130,9 +130,16 @@ class ScriptedApi:
         w = MagicMock(); r = MagicMock()
         w.write = lambda b: self.frames.append(bytes(b).hex())
         self.pending = b""
+        self.silent = False; self.reads = 0; self.starved = False
         async def read(n):
-            # a byte stream: what a read(n) does not take stays for the next read; each scripted reply arrives as one chunk
-            if not self.pending: self.pending = self.script.pop(0) if self.script else b""
+            # a byte stream: what a read(n) does not take stays for the next read; each scripted reply arrives as one chunk.
+            # After its last scripted reply the device either closes (end of stream, the default) or, with `silent`, just says nothing more
+            self.reads += 1
+            if not self.pending:
+                if not self.script:
+                    self.starved = True
+                    if self.silent: await asyncio.Event().wait()
+                self.pending = self.script.pop(0) if self.script else b""
             out, self.pending = self.pending[:n], self.pending[n:]
             return out
         r.read = read
@@ -143,7 +150,7 @@ class ScriptedApi:
         self.frames.clear(); self.script[:] = list(replies); self.pending = b""
         try:
             if self.hung: raise asyncio.TimeoutError()          # an earlier call on this object never returned: no point in waiting again
-            with time_machine.travel(float(now), tick=False):
+            with time_machine.travel(float(now) + (int(now) % 997) / 2000.0, tick=False):       # never a whole second; below the half, since the timestamp of a frame is the ROUNDED clock
                 r = await asyncio.wait_for(call_op(self.api, kind, args), self.patience)
             out = show_response(kind, r)
         except asyncio.TimeoutError:
@@ -157,7 +164,7 @@ class ScriptedApi:
         (the frames accumulate in self.frames)"""
         try:
             if self.hung: raise asyncio.TimeoutError()
-            with time_machine.travel(float(now), tick=False):
+            with time_machine.travel(float(now) + (int(now) % 997) / 2000.0, tick=False):       # never a whole second; below the half, since the timestamp of a frame is the ROUNDED clock
                 r = await asyncio.wait_for(call_op(self.api, kind, args), self.patience)
             return show_response(kind, r)
         except asyncio.TimeoutError:
@@ -202,13 +209,48 @@ class SlowApi(ScriptedApi):
         self.api._reader.read = read
 
 
+SLOW_DELAYS = [0, 0.2, 1.9, 2.1, 4.9, 5.1, 9.9, 10.1, 29, 31, 59, 61, 125, 601, 3700, 90000]
+def run_cases_slow(cases, rnd):
+    """each case on a fresh API instance whose device takes from a fraction of a second to a day (virtual clock) to answer each read;
+    the delays chosen are recorded in the case ("delays") so that it replays"""
+    async def go():
+        res = []
+        for c in cases:
+            if "delays" not in c: c["delays"] = [rnd.choice(SLOW_DELAYS) for _ in c["replies"]]
+            api = SlowApi(c["kind"] in TYPE2_KINDS, c["id"], c["key"]); api.delays[:] = list(c["delays"])
+            res.append(await api.run(c["kind"], c["args"], [bytes.fromhex(r) for r in c["replies"]], c["now"]))
+        return res
+    return run_virtual(go())
+
+
+def with_delays(rnd, cases):
+    for c in cases: c["delays"] = [rnd.choice(SLOW_DELAYS) for _ in c["replies"]]
+    return cases
+
+
 def run_cases_fresh(cases):
-    """each case on a fresh API instance; returns the canonical texts"""
+    """each case on a fresh API instance; returns the canonical texts.  Cases that carry "delays" run against a slow device on the virtual clock"""
+    run_cases_fresh.stuck = getattr(run_cases_fresh, "stuck", 0)
+    if any("delays" in c for c in cases):
+        slow = [c for c in cases if "delays" in c]; fast = [c for c in cases if "delays" not in c]
+        rs = iter(run_cases_slow(slow, None)); rf = iter(run_cases_fresh(fast) if fast else [])
+        return [next(rs) if "delays" in c else next(rf) for c in cases]
     async def go():
         res = []
         for c in cases:
             s = ScriptedApi(c["kind"] in TYPE2_KINDS, c["id"], c["key"])
-            res.append(await s.run(c["kind"], c["args"], [bytes.fromhex(r) for r in c["replies"]], c["now"]))
+            if c.get("device_after_last_reply"): s.silent = True; s.patience = 3           # a replayed case of the kind found below
+            t = await s.run(c["kind"], c["args"], [bytes.fromhex(r) for r in c["replies"]], c["now"])
+            if not s.silent and t.count("|") <= len(c["replies"]) and len(res) % 2 == 0 and run_cases_fresh.stuck < 3:
+                # the script has a reply for every frame written: the same exchange against a device that stays silent (connection open) after its last
+                # reply instead of closing must be the same - an operation reads one reply per frame and no more
+                s2 = ScriptedApi(c["kind"] in TYPE2_KINDS, c["id"], c["key"]); s2.silent = True; s2.patience = 3
+                t2 = await s2.run(c["kind"], c["args"], [bytes.fromhex(r) for r in c["replies"]], c["now"])
+                if t2 != t:
+                    c["device_after_last_reply"] = "stays silent, connection open (the outcome is %s when it closes instead)" % t.split("|")[-1][:60]
+                    t = t2
+                    if "NeverReturned" in t2: run_cases_fresh.stuck += 1
+            res.append(t)
         return res
     return asyncio.run(go())
 
@@ -395,9 +437,10 @@ class FakeDevice:
         self.ip = ip; self.port = port; self.srv = None; self.open = 0; self.eofs = 0
         self.log = []        # (connection number, bytes)
         self.conns = 0; self.script = []; self.policy = None
+        self.resets = 0; self.delay = 0; self.sent = []          # seconds before each reply; (connection number, reply bytes)
 
     async def handle(self, r, w):
-        self.conns += 1; n = self.conns; self.open += 1; half = False
+        self.conns += 1; n = self.conns; self.open += 1; half = False; reset = False
         try:
             while True:
                 d = await r.read(4096)
@@ -413,11 +456,13 @@ class FakeDevice:
                     half = True; continue
                 if reply == b"":            # an empty reply = the device closes the stream
                     break
-                w.write(reply); await w.drain()
+                if self.delay: await asyncio.sleep(self.delay)
+                self.sent.append((n, reply)); w.write(reply); await w.drain()
         except ConnectionError:
-            pass
+            reset = True; self.resets += 1          # the peer aborted the connection (RST): that is not an end of stream
         finally:
-            self.open -= 1; self.eofs += 1
+            self.open -= 1
+            if not reset: self.eofs += 1
             w.close()
 
     async def listen(self, on=True):
